@@ -148,6 +148,9 @@ def C05(V, tier):
     n = 40 if tier == "quick" else 400
     progs = _programs(n, seed() + 17, "C05", max_ops=5 if tier == "quick" else 8)
     rng = random.Random(seed())
+    # carry nothing over: stateful operators over several iterations (folds, reorder; joins, zip, merge)
+    op_replay(V, workdir("C05o"), tier, "C05", ["fold", "kfold", "reorder"])
+    binary_replay(V, workdir("C05b"), tier, "C05", JOIN_VARIANTS[:4] + [("zip", {}), ("merge", {})])
     # loops with side inputs: the boundary behind a BinaryStart with a cached side (start_out hook)
     side = gen.loop_programs(rng, 12 if tier == "quick" else 120, nested=False, side=True)
     loops = gen.loop_programs(rng, 8 if tier == "quick" else 80)
@@ -503,6 +506,8 @@ def binary_replay(V, wd, tier, prop, ops):
     for v in viols:
         if v["prop"] == prop:
             V.add_violation(v, replay={"job": jb.get(v["job"]), "order": meta[v["job"]]["order"]})
+        else:
+            V.coverage.setdefault("other_property_violations", []).append({k: v[k] for k in ("prop", "kind", "job")})
     V.coverage["states"] += states
     V.coverage["transitions"] += states
     V.coverage["traces_validated_against_impl"] += len(recs) // 2
